@@ -172,7 +172,7 @@ def validate(ctx, events, shards=14):
                                     "scribbleSameSnapshots", "scribbleSameCalls") if k in e}
             slim.append(e2)
         elif e["ev"] == "begin":
-            slim.append({k: e[k] for k in ("ev", "unlock", "lock", "genesis", "f", "ver", "lt", "seq")})
+            slim.append({k: e[k] for k in ("ev", "unlock", "lock", "genesis", "f", "ver", "lt", "seq", "sx") if k in e})
         else:
             slim.append(e)
     n = len(slim)
@@ -196,6 +196,8 @@ def validate(ctx, events, shards=14):
         rej = [(a + r["i"] - 1, r["why"]) for r in res["rejects"]]
         obs = [o for o in res["emitted"] if o.get("k") == "hash"]
         for o in vf.check_hash_oracle(obs):
+            if o["ref"] == 0:
+                raise vf.Infra("a signature preimage produced by the harness fails its hash obligation (harness bug, not a verdict)")
             rej.append((a + o["ref"] - 1, dict(cls="hash", kind=o["kind"])))
         unm = sum(1 for o in res["emitted"] if o.get("k") == "unmodelled")
         return rej, len(obs), unm
